@@ -274,6 +274,9 @@ func (d *DeviceNode) Validate() error {
 		"p": {},
 	}
 
+	if d == nil || d.DeviceNode == nil {
+		return errors.New("invalid (nil) device node")
+	}
 	if d.Path == "" {
 		return errors.New("invalid (empty) device path")
 	}
@@ -296,6 +299,9 @@ type Hook struct {
 
 // Validate a hook.
 func (h *Hook) Validate() error {
+	if h == nil || h.Hook == nil {
+		return errors.New("invalid (nil) hook")
+	}
 	if _, ok := validHookNames[h.HookName]; !ok {
 		return fmt.Errorf("invalid hook name %q", h.HookName)
 	}
@@ -315,6 +321,9 @@ type Mount struct {
 
 // Validate a mount.
 func (m *Mount) Validate() error {
+	if m == nil || m.Mount == nil {
+		return errors.New("invalid (nil) mount")
+	}
 	if m.HostPath == "" {
 		return errors.New("invalid mount, empty host path")
 	}
